@@ -11,9 +11,9 @@ package main
 // all server data was listed before the remaining client data.
 //
 // Rule (typed AST, pairing): in package builder, where an if/else on a boolean K takes an element by cursor
-// (`… = &Q[c]` followed by `c++`) — one cursor per branch — every later `if … { …; break }` in the same loop body that
-// compensates for one of the cursors (`c--`, or an expression `c-1`) compensates for each of them, in the branch of K
-// that took it.
+// (`… = &Q[c]`, one cursor per branch), every later `if … { …; break }` in the same loop body either comes before the
+// cursor is advanced (peek, test, then advance) or compensates for it (`c--`, or an expression `c-1`) in the branch of K
+// that took the element.
 
 import (
 	"fmt"
@@ -63,10 +63,8 @@ func ruleUntake(id string) func(p *Prog, r *Res) {
 							}
 						}
 					}
-					if taken != nil && taken == inc {
-						return taken
-					}
-					return nil
+					_ = inc
+					return taken
 				}
 				for _, st := range loop.Body.List {
 					ifs, ok := st.(*ast.IfStmt)
@@ -120,17 +118,35 @@ func ruleUntake(id string) func(p *Prog, r *Res) {
 					if !ok || br.Tok != token.BREAK {
 						continue
 					}
-					any := false
+					// only guards that concern the merge: the break is taken on a condition about the packet at hand
+					// (every guard behind the take counts; a guard that neither compensates nor is followed by the advance
+					// of a cursor it would have to compensate is still an obligation)
 					for _, t := range takes {
-						if compensates(guard.Body, t.cursor) {
-							any = true
+						// where is the cursor advanced: in a statement of the loop body in front of the guard, or behind it?
+						advancedBefore := false
+						for _, st2 := range loop.Body.List {
+							if st2.Pos() >= guard.Pos() {
+								break
+							}
+							ast.Inspect(st2, func(y ast.Node) bool {
+								switch s := y.(type) {
+								case *ast.IncDecStmt:
+									if s.Tok == token.INC && identObj(info, s.X) == t.cursor {
+										advancedBefore = true
+									}
+								case *ast.AssignStmt:
+									if s.Tok == token.ADD_ASSIGN && len(s.Lhs) == 1 && identObj(info, s.Lhs[0]) == t.cursor {
+										advancedBefore = true
+									}
+								}
+								return true
+							})
 						}
-					}
-					if !any {
-						continue
-					}
-					for _, t := range takes {
 						n++
+						if !advancedBefore {
+							r.Ok(rule, fmt.Sprintf("%s postponement puts back what was taken with %s", f.Key(), t.cursor.Name()), p.Pos(guard), "the cursor is advanced only behind the stop test: a postponed packet was never taken")
+							continue
+						}
 						// the compensation lies in the branch of K that took the element (or outside any test of K)
 						okC := false
 						var walk func(nd ast.Node, known map[bool]bool)
@@ -179,7 +195,7 @@ func ruleUntake(id string) func(p *Prog, r *Res) {
 }
 
 func init() {
-	const expl = " (typed AST, pairing): in package builder, where an if/else on a boolean K takes an element by cursor (`… = &Q[c]; c++`, one cursor per branch), every later `if … { …; break }` of the same loop body that compensates for one of the cursors (`c--`, `c -= 1`, or an expression `c-1`) compensates for each of them, in the branch of K that took it. FromPcap takes the earlier head of two packet queues and leaves the loop without processing it when the next capture has to be loaded first; a packet that is not put back never reaches the reassemblers."
+	const expl = " (typed AST, pairing): in package builder, where an if/else on a boolean K takes an element by cursor (`… = &Q[c]`, one cursor per branch), every later `if … { …; break }` of the same loop body either lies in front of the statement that advances the cursor or compensates for it (`c--`, `c -= 1`, or an expression `c-1`) in the branch of K that took the element. FromPcap takes the earlier head of two packet queues and leaves the loop without processing it when the next capture has to be loaded first; a packet that is not put back never reaches the reassemblers."
 	register("C05", "C05-n"+expl, ruleUntake("C05-n"))
 	register("C08", "C08-m"+expl, ruleUntake("C08-m"))
 }
